@@ -259,12 +259,13 @@ def explore_program(label, builder, res, cap, interp=None, alphabets=None, desc=
             return {'sigkey': 'verilog_error:' + norm_msg(c.verr), 'error': c.verr, 'inputs': list(x)}
         a = [w.get() for w in c.out_wires]
         b = [c.v.peek(n) for n in c.out_names]
-        if interp is not None and c.pred[1] is not None:
-            if (c.pred[1] & ((1 << c.out_wires[0].getWidth()) - 1)) != a[0] or (c.pred[0] is not None and c.pred[0] != c.dut.s):
-                raise core.HarnessError('domain interpreter disagrees with py4hw: %r vs q=%r s=%r' % (c.pred, a, getattr(c.dut, 's', None)))
         res['_outcomes'].add(tuple(a))
         if a != b:
             return {'sigkey': 'output_mismatch', 'inputs': dict(zip(c.in_names, x)), 'outputs': c.out_names, 'py4hw': a, 'verilog': b}
+        if interp is not None and c.pred[1] is not None:
+            # self-check of the domain interpreter (only meaningful when the two implementations agree with each other)
+            if (c.pred[1] & ((1 << c.out_wires[0].getWidth()) - 1)) != a[0] or (c.pred[0] is not None and c.pred[0] != c.dut.s):
+                raise core.HarnessError('domain interpreter disagrees with py4hw: %r vs q=%r s=%r' % (c.pred, a, getattr(c.dut, 's', None)))
         for k in c.svars:
             pv = getattr(c.dut, k)
             vv = c.vscope.sigs[k].value
